@@ -162,7 +162,7 @@ def evaluate(inp):
 
 HS_SCRIPT = r'''
 import sys, json, hashlib
-sys.path.insert(0, %(verif)r); sys.path.insert(0, '/repo')
+sys.path.insert(0, %(verif)r)
 from mc import repo
 from mc.props import c12
 from cgsmiles import MoleculeResolver
